@@ -699,7 +699,8 @@ PROPS = {
         "module": "ZenonVerif.Props.C15",
         "streams": [S("p2p", 2500, 60000, timeout=3000),
                     S("frame", 3000, 300000, driver=False), S("disc", 3000, 300000, driver=False),
-                    S("p2p-net", 40, 2000, driver=False, timeout=3000)],
+                    S("p2p-net", 40, 2000, timeout=3000)],
+        "extra_modules": ["ZenonVerif.Props.C15Sync"],
         "rule": "p2p stream: one peer session per message against a real ProtocolManager over the mock node's ChainBridge "
                 "(chain of 530 momentums): 12 handshake variants; first of all the requests of the repaired findings F7a/F7b (12 "
                 "GetBlockHashes requests naming unknown / zero / one-bit-off hashes, GetBlockHashesFromNumber (0,0), (0,1), (1,0) — "
@@ -758,7 +759,23 @@ PROPS = {
                 "real time-outs (5 s hash, 9 s block, 4 s cycle; 40 s / 20 s): the node reaches the honest peer's height "
                 "(class=sync-stalled), a peer silent on a hash request is disconnected (class=offender-not-dropped), an honest peer is "
                 "never disconnected and still served (class=honest-peer-dropped / -not-served), the peer that delivered a refused momentum "
-                "— and nobody else — is disconnected, the node holds only the producer's momentums",
+                "— and nobody else — is disconnected, the node holds only the producer's momentums. "
+                "TIE TO THE DOWNLOADER MODEL (s_p2p_dl.go, Driver/Downloader.lean; the stream is replayed by the driver): every "
+                "scenario records what its scripted peers did and saw, in the model's vocabulary and in wall-clock order (ticks of "
+                "100 ms): registrations, the head probe (= Synchronise started, with the local height), every hash pack (the heights "
+                "its hashes belong to; what the node's chain says about it as an answer to the ancestor search), every block request "
+                "received, every block pack sent (per block: ComputeHash() == Hash, Height in the window, bytes genuine), the "
+                "disconnects with reason 3; lines `dl-ev <scenario> <tokens>` and `dl-end <scenario> <target> <judged peers> <mode> | "
+                "dropped=<…> synced=<…> stalled=<…>`. The driver replays the events through Dl.step Cfg.fixed (time-outs fire by "
+                "ticks) and answers from the model state: the judged peers the MODEL decided to drop (hash time-out, empty / stale / "
+                "malformed hash packs, forged block, failed import, nobody left to ask), head >= target, stuck. Exact times are not "
+                "compared. Not judged: the bystander, and any peer that sent a block pack that was not THE answer to a request once "
+                "block requests were out (which request such a pack meets is decided by the node's scheduler): such scenarios "
+                "(silent-hashes-terminator, silent-blocks-first/-third, origin-answers-blocks-two-answers; counter "
+                "dl-traces-hash-level-only) are replayed on the hash level only, synced=na; the other 45 (dl-traces-exact) in full. "
+                "Slack of the replay: a request naming hashes the model still has in flight elsewhere is preceded by requeue, a "
+                "request to a peer the model holds busy by an out-of-bound pack of that peer, a head probe while the model holds a run "
+                "by cancel, a disconnect by an update",
         "partial": "proved: reply caps (every chain, every request, no premise), totality (every message; premises on the node only: "
                    "it holds its genesis momentum and fewer than 2^64-1 momentums, both shown necessary) and size gate of the handler "
                    "MODEL; the two clauses that were false of the code (F7a, F7b) are repaired (d85e958, 99f2642) and their inputs are "
@@ -766,14 +783,32 @@ PROPS = {
                    "string (RLP library, downloader/fetcher goroutines), allocation inside rlp, liveness of the message loop; "
                    "rlpx frame MAC/size and discovery packet checks have no model/theorem (T4 frame_reject not built): they are "
                    "exercised by the monitor-only streams frame and disc; the devp2p base protocol (p2p/peer.go, p2p/server.go) and the "
-                   "downloader / fetcher state machine have no model either: monitor-only stream p2p-net (process survival, liveness with "
-                   "deadlines, blame). Known findings of that stream, not repaired: FU1 (a mis-numbered block pack of ANY peer makes the "
-                   "node drop the honest peer it synchronises from — errInvalidChain blames the origin) and FU2 (a stale `false` left on "
-                   "processCh by a cancelled synchronisation makes the next one finish its block fetcher at once and its hash fetcher block "
-                   "for ever: the node never synchronises again; timing dependent)",
+                   "fetcher have no model: p2p-net monitors (process survival, liveness with deadlines, blame). "
+                   "SYNCHRONISATION (Props/C15Sync.lean, Model/Downloader.lean: Synchronise / findAncestor / fetchHashes / "
+                   "fetchBlocks / process / queue as a transition system over events, variants of the code as a parameter): proved "
+                   "for the code as it is (pinned by AST facts: sender test before timeout.Stop(), draining loop before "
+                   "syncWithPeer, ComputeHash test before block.Height, errForgedBlock drops blockPack.peerId, process drops "
+                   "blocks[index].OriginPeer, the errors Synchronise answers with a drop, the time-outs) — (a) the time-out of the "
+                   "pending hash request is armed in every reachable state in which the hash fetcher waits, and hashTTL ticks end "
+                   "the wait; (b) from every reachable state silence ends the synchronisation within an explicit measure "
+                   "<= hashTTL + 3 + (requests in flight + peers)(blockTTL + 2) ticks; (c) a synchronisation starts with empty "
+                   "channels and queue whatever the previous one left, the block fetcher never returns before the hash fetcher of the "
+                   "same synchronisation said so, no reachable state is stuck; (d) whoever is dropped is at fault (forged block / "
+                   "failed import: the deliverer; the origin only for its own time-out, hash packs, an authentic block of its chain "
+                   "outside the window, or when nobody can be asked); negative witnesses for the three variants (seeded C15-r2-1; "
+                   "before 4fc5ee4 = FU2 with `deadlock_is_forever`; before 7ec6f07 = FU1). PARTIAL: the concurrency of the real "
+                   "goroutines is abstracted to event interleavings (a goroutine whose cancel channel is closed leaves at once; the "
+                   "block fetcher takes processCh at its next update); Go channel semantics and timers are MODELLED, not verified; "
+                   "(b) assumes that every update offers a request to every idle peer (the loop over IdlePeers(), hypothesis "
+                   "MaximalRun) and does not cover throttling (cache of 4096 blocks full), maxQueuedHashes (262144) and a peer that "
+                   "keeps ANSWERING just in time; reputation / capacity are not modelled (which peer is asked for which hashes is an "
+                   "input); the replay judges drops and synced/stalled, not times. FU1 and FU2, found by this stream, are repaired "
+                   "(7ec6f07 + 5b338e6, 4fc5ee4); their pre-repair variants are the negative witnesses",
         "assumptions": ["go-ethereum rlp decodes as specified (the stream classifies each payload with the same decoder the handler uses)",
                         "the chain is abstracted to its height; hashes are identified with the height of the momentum that carries them",
-                        "handler_total: the node holds its genesis momentum and its height is below 2^64-1 (no premise on the message)"],
+                        "handler_total: the node holds its genesis momentum and its height is below 2^64-1 (no premise on the message)",
+                        "downloader model: a hash is identified with the height its momentum commits to (ComputeHash() == Hash makes the "
+                        "height authentic); an empty block pack never reaches the downloader (handler.go guard, generated fact)"],
         "trusted_base": ["p2p.MsgPipe session harness (probe message delimits the node's answer)",
                          "p2p-net: the harness's RLPx initiator handshake and scripted eth/61 peers (honest answers mirror handleMsg: hashes from the highest height down)"],
     },
